@@ -56,3 +56,25 @@ fn outbound_alias_resolvers_never_mislead_the_server() {
     for f in &fails { println!("BOUNDED-FAIL outbound_alias_resolvers_never_mislead_the_server {}", f); }
     assert!(fails.is_empty());
 }
+
+
+/// C17 "no alias of 0 or above the server's Topic Alias Maximum is ever sent" at the top of the range: LRU resolver with the largest
+/// configurable size against a server maximum of 65535 (and 65534), more distinct topics than aliases.
+#[test]
+fn outbound_lru_alias_range_at_the_u16_boundary() {
+    let mut cases = 0u64; let mut fails: Vec<String> = Vec::new();
+    for (cache, server_max) in [(65535u16, 65535u16), (65535, 65534), (65534, 65535)] {
+        let factory = OutboundAliasResolverFactory::new_lru_factory(cache);
+        let mut r = (factory)();
+        r.reset_for_new_connection(server_max);
+        let limit = u16::min(cache, server_max);
+        for i in 0..(limit as u32 + 3) {
+            cases += 1;
+            let res = r.resolve_and_apply_topic_alias(&None, &format!("t/{}", i));
+            match res.alias { Some(a) if a >= 1 && a <= limit => {}, other => { if fails.len() < 5 { fails.push(format!("cache={} server_max={} topic #{}: alias {:?} (skip_topic={})", cache, server_max, i, other, res.skip_topic)); } } }
+        }
+    }
+    println!("BOUNDED outbound_lru_alias_range_at_the_u16_boundary cases={} bound=LRU sizes 65534/65535 x server maximum 65534/65535 x (maximum + 3) distinct topics", cases);
+    for f in &fails { println!("BOUNDED-FAIL outbound_lru_alias_range_at_the_u16_boundary {}", f); }
+    assert!(fails.is_empty());
+}
